@@ -125,6 +125,27 @@ def _(xp, a, b):
     return dict(L=xp.sum(xp.where(np.array([[True, False, True], [False, True, True]]), a, b) * xp.maximum(a, b)))
 
 
+# ---- reductions / kernels fed by layout-changing views ---------------------------------------------------------
+@prog("reduce-transposed-views", "pure views", (2, 3))
+def _(xp, a):
+    t = a.T
+    s = xp.swapaxes(a, 0, 1)
+    return dict(L=xp.max(t) + xp.min(s) + xp.prod(t) + xp.sum(xp.cumsum(s, axis=0)) + xp.einsum("ij->", t), t=t, s=s)
+
+
+@prog("diamond-transposed-max", "pure views", (2, 3), (2, 3))
+def _(xp, a, c):
+    g = a * c
+    h = g.T
+    return dict(L=xp.max(h) + xp.sum(h * 2.0) + xp.sum(xp.matmul(h, g)), g=g, h=h)
+
+
+@prog("strided-view-kernels", "pure views", (4, 4))
+def _(xp, a):
+    v = a[::2, ::-1]
+    return dict(L=xp.max(v) * xp.min(v, axis=1)[0] + xp.sum(xp.matmul(v, v.T)) + xp.var(v), v=v)
+
+
 # ---- terminal ops whose VJP hands back (views of) the incoming gradient --------------------------------------
 @prog("terminal-concat-repeat", "pure", (2, 3))
 def _(xp, a):
